@@ -325,6 +325,15 @@ class Program:
             return ("ext", full)
         return None
 
+    def function(self, modname: str, name: str) -> Optional[FuncInfo]:
+        """The function a module makes available under `name`: defined there, or imported from another module of the package
+        (a function moved to another module and imported back is still found where the rules look for it)."""
+        mod = self.modules.get(modname)
+        if mod is None:
+            return None
+        r = self.lookup_name(mod, name)
+        return r if isinstance(r, FuncInfo) else None
+
     def resolve_expr_to_class(self, mod: Module, expr: ast.expr) -> Union[ClassInfo, str, None]:
         """Resolve a base-class / constructor expression to a ClassInfo or an external dotted name."""
         if isinstance(expr, ast.Subscript):  # Generic[T], BaseRouter[WSGIApp]
